@@ -127,25 +127,41 @@ structure Cfg where
   copyExpiry : Bool               -- regenerated: does `Store.Add` copy `Expiry`?
   countRegistrationError : Bool   -- regenerated: is `ProgLoadErrors` bumped when `ms.Add` fails?
 
+/-- what `CompileAndRun` decides to do, as a function of its inputs -/
+inductive Decision
+  | unchanged                       -- same content hash as the running version: nothing happens
+  | compileError
+  | refused (partialStore : Store)  -- the store refused one of the metrics
+  | loaded (s' : Store)
+
+def sameHash (r : RT) (name : Bytes) (v : Version) : Bool :=
+  match r.handles.find? (·.1 = name) with
+  | some p => p.2.hash == v.hash
+  | none => false
+
+def decision (cfg : Cfg) (r : RT) (name : Bytes) (v : Version) : Decision :=
+  if sameHash r name v then .unchanged
+  else if !v.compiles then .compileError
+  else
+    let decls := v.decls.map (fun d => { d with prog := name })
+    match registerAll cfg.copyExpiry r.store decls with
+    | .ok s' => .loaded s'
+    | .error _ => .refused (registerPartial cfg.copyExpiry r.store decls)
+
+/-- `r.handles[name] = h` -/
+def setHandle (hs : List (Bytes × Handle)) (name : Bytes) (h : Handle) : List (Bytes × Handle) :=
+  if hs.any (·.1 = name) then hs.map (fun p => if p.1 = name then (name, h) else p) else hs ++ [(name, h)]
+
 /-- `CompileAndRun(name, source)` -/
 def compileAndRun (cfg : Cfg) (r : RT) (name : Bytes) (v : Version) : RT :=
-  match r.handles.find? (·.1 = name) with
-  | some (_, h) => if h.hash = v.hash then r else go r
-  | none => go r
-where
-  go (r : RT) : RT :=
-    if !v.compiles then { r with loadErrors := bump name r.loadErrors }
-    else
-      let decls := v.decls.map (fun d => { d with prog := name })
-      match registerAll cfg.copyExpiry r.store decls with
-      | .error _ =>
-        { r with store := registerPartial cfg.copyExpiry r.store decls,
-                 loadErrors := if cfg.countRegistrationError then bump name r.loadErrors else r.loadErrors }
-      | .ok s' =>
-        { r with store := s', loads := bump name r.loads,
-                 handles := if r.handles.any (·.1 = name)
-                   then r.handles.map (fun p => if p.1 = name then (name, ⟨v.hash, v⟩) else p)
-                   else r.handles ++ [(name, ⟨v.hash, v⟩)] }
+  match decision cfg r name v with
+  | .unchanged => r
+  | .compileError => { r with loadErrors := bump name r.loadErrors }
+  | .refused ps =>
+    { r with store := ps,
+             loadErrors := if cfg.countRegistrationError then bump name r.loadErrors else r.loadErrors }
+  | .loaded s' =>
+    { r with store := s', loads := bump name r.loads, handles := setHandle r.handles name ⟨v.hash, v⟩ }
 
 inductive Entry
   | dir (name : Bytes)
@@ -203,18 +219,21 @@ def applyEffect (prog : Bytes) (d : SMetric) (labels : List Bytes) (s : Store) :
     pattern; the key is the line itself).  Effect 1 = `m[$1,…]++` inside the pattern block,
     effect 2 = a scalar `m++` at the end of the program (reached unless a runtime error ended
     the line early). -/
+def applyDecl (prog key : Bytes) (isMatch : Bool) (r : RT) (de : SMetric × Nat) : RT :=
+  if de.1.hidden then r
+  else if de.2 = 1 ∧ isMatch then
+    { r with store := applyEffect prog de.1 (de.1.keys.map (fun _ => key)) r.store }
+  else if de.2 = 2 then
+    { r with store := applyEffect prog de.1 [] r.store }
+  else r
+
+/-- one program's VM processing the line -/
+def lineProg (key : Bytes) (isMatch : Bool) (r : RT) (h : Bytes × Handle) : RT :=
+  let v := h.2.version
+  if isMatch ∧ v.runtimeError then { r with runtimeErrors := bump h.1 r.runtimeErrors }
+  else (v.decls.zip v.effect).foldl (applyDecl h.1 key isMatch) r
+
 def line (r : RT) (key : Bytes) (isMatch : Bool) : RT :=
-  let r := { r with lineCount := r.lineCount + 1 }
-  r.handles.foldl (fun r h =>
-    let v := h.2.version
-    if isMatch ∧ v.runtimeError then { r with runtimeErrors := bump h.1 r.runtimeErrors }
-    else
-      (v.decls.zip v.effect).foldl (fun r de =>
-        if de.1.hidden then r
-        else if de.2 = 1 ∧ isMatch then
-          { r with store := applyEffect h.1 de.1 (de.1.keys.map (fun _ => key)) r.store }
-        else if de.2 = 2 then
-          { r with store := applyEffect h.1 de.1 [] r.store }
-        else r) r) r
+  r.handles.foldl (lineProg key isMatch) { r with lineCount := r.lineCount + 1 }
 
 end MtailVerif.Runtime
